@@ -7,6 +7,9 @@ package golang
 
 //@ package parser
 //@
+//@ # the sizes of the tables are symbolic (arbitrary integers >= 1): the proofs do not depend on the carrier grammar
+//@ symconst numStates numSymbols numProductions numNTSymbols
+//@
 //@ # ---- table vocabulary ----
 //@ spec act(s int, t int) action = actionTab[s].actions[t]
 //@ spec isShift(a action) bool = typeis(a, shift)
@@ -198,12 +201,11 @@ package golang
 //@     | && all(k, 0, len(p.stack.state), p.stack.state[k] == old(p.stack.state[k]) && p.stack.attrib[k] == old(p.stack.attrib[k]))
 //@     | && p.nextToken == old(p.nextToken) && ScanK == old(ScanK))
 //@   # otherwise the stack above the topmost such state is discarded and the error attribute is pushed on the state reached by shifting the error symbol
-//@   ensures [rec] imp(old(someRec(p)), len(p.stack.state) >= 2 && len(p.stack.state) <= old(len(p.stack.state)) + 1
-//@     | && canRec(p, len(p.stack.state)-2) && all(k, len(p.stack.state)-1, old(len(p.stack.state)), !old(canRec(p, k)))
-//@     | && all(k, 0, len(p.stack.state)-1, p.stack.state[k] == old(p.stack.state[k]) && p.stack.attrib[k] == old(p.stack.attrib[k]))
-//@     | && p.stack.state[len(p.stack.state)-1] == shiftTo(act(p.stack.state[len(p.stack.state)-2], ErrT()))
-//@     | && p.stack.attrib[len(p.stack.state)-1] == errorAttrib
-//@     | && len(errorAttrib.ErrorSymbols) == old(len(p.stack.state)) - (len(p.stack.state) - 1)
+//@   ensures [rec-len] imp(old(someRec(p)), len(p.stack.state) >= 2 && len(p.stack.state) <= old(len(p.stack.state)) + 1)
+//@   ensures [rec-below] imp(old(someRec(p)), all(k, 0, len(p.stack.state)-1, p.stack.state[k] == old(p.stack.state[k]) && p.stack.attrib[k] == old(p.stack.attrib[k])))
+//@   ensures [rec-state] imp(old(someRec(p)), canRec(p, len(p.stack.state)-2) && all(k, len(p.stack.state)-1, old(len(p.stack.state)), !old(canRec(p, k))))
+//@   ensures [rec-push] imp(old(someRec(p)), p.stack.state[len(p.stack.state)-1] == shiftTo(act(p.stack.state[len(p.stack.state)-2], ErrT())) && p.stack.attrib[len(p.stack.state)-1] == errorAttrib)
+//@   ensures [rec-symbols] imp(old(someRec(p)), len(errorAttrib.ErrorSymbols) == old(len(p.stack.state)) - (len(p.stack.state) - 1)
 //@     | && all(j, 0, len(errorAttrib.ErrorSymbols), errorAttrib.ErrorSymbols[j] == old(view(p.stack.attrib))[len(p.stack.state)-1+j]))
 //@   # input is skipped, starting with the offending token, up to the first token acceptable after the error symbol, but not past end of input
 //@   ensures [skip] imp(recovered, act(topState(p), p.nextToken.Type) != nil) && imp(!recovered && old(someRec(p)), p.nextToken.Type == token.EOF && act(topState(p), p.nextToken.Type) == nil)
